@@ -209,7 +209,7 @@ class Orchestrator:
         res = {'tree': th, 'tier': tier, 'seed': seed, 'nonce': nonce, 'findings': [], 'errors': [], 'engines': {}, 'summary': {}}
         for name in ('repo_on', 'repo_off'):
             if rc[name] != 0:
-                res['errors'].append('cargo check of /repo failed (%s); see %s' % (name, os.path.join(logdir, name + '.log')))
+                res['errors'].append('[ALL] cargo check of /repo failed (%s); see %s' % (name, os.path.join(logdir, name + '.log')))
         t_facts = time.time() - t0
 
         # ---- corpus shards that did not compile: attribute, exclude, retry (C13 G-COMPILES)
@@ -224,7 +224,7 @@ class Orchestrator:
                 log = open(os.path.join(logdir, name + '.log')).read()
                 bad = sorted(set(re.findall(r'/out/(m\d{4})\.rs', log)) - set(excluded))
                 if not bad:
-                    res['errors'].append('corpus shard %d failed to build and the failure is not attributable to a generated module; see %s' % (i, os.path.join(logdir, name + '.log')))
+                    res['errors'].append('[GEN] corpus shard %d failed to build and the failure is not attributable to a generated module; see %s' % (i, os.path.join(logdir, name + '.log')))
                     break
                 errs = defaultdict(list)
                 for m in re.finditer(r'(error(?:\[E\d+\])?: [^\n]*)\n\s*--> [^\n]*/out/(m\d{4})\.rs:(\d+)', log):
@@ -240,10 +240,10 @@ class Orchestrator:
             if os.path.exists(idxf):
                 d = json.load(open(idxf))
                 if d.get('nonce') != nonce:
-                    res['errors'].append('stale corpus index for shard %d' % i)
+                    res['errors'].append('[GEN] stale corpus index for shard %d' % i)
                 index[i] = d
             else:
-                res['errors'].append('corpus shard %d produced no index' % i)
+                res['errors'].append('[GEN] corpus shard %d produced no index' % i)
         # ---- builder / generator panics and compile failures (C13 observations)
         n_mod = 0
         for i, d in sorted(index.items()):
@@ -274,10 +274,10 @@ class Orchestrator:
                                  positive=os.path.join(fdir, 'facts_positive'))
             res['findings'] += src['findings']
             res['engines']['SRC'] = src['evidence']
-            res['errors'] += src.get('errors', [])
+            res['errors'] += ['[SRC] ' + e for e in src.get('errors', [])]
             prim_summary = src.get('prim_summary', {})
         except Exception as e:
-            res['errors'].append('SRC engine failed: %s\n%s' % (e, traceback.format_exc()[-2000:]))
+            res['errors'].append('[SRC] SRC engine failed: %s\n%s' % (e, traceback.format_exc()[-2000:]))
         t_src = time.time() - t1
 
         # ---- GEN over corpus shards and the repository's example crates (pool)
@@ -297,7 +297,7 @@ class Orchestrator:
         with ProcessPoolExecutor(max_workers=min(16, len(tasks))) as ex:
             for r in ex.map(gen_worker, tasks):
                 res['findings'] += r['findings']
-                res['errors'] += r['errors']
+                res['errors'] += ['[GEN] ' + e for e in r['errors']]
                 gen['modules'] += r['modules']
                 gen['stats'].update(r['stats'])
                 gen['samples'] += r['samples']
@@ -306,8 +306,10 @@ class Orchestrator:
         res['engines']['GEN'] = gen
         t_gen = time.time() - t2
         floor = P.CORPUS_FLOOR.get(tier, 0)
-        if len(gen['modules']) < floor:
-            res['errors'].append('only %d generated modules were analysed, floor for tier %s is %d' % (len(gen['modules']), tier, floor))
+        n_uncompilable = len(set((i, b) for i, b, _ in compile_findings))
+        gen['modules_not_compiling'] = n_uncompilable
+        if len(gen['modules']) + n_uncompilable < floor:
+            res['errors'].append('[GEN] only %d generated modules were analysed (+%d that do not compile), floor for tier %s is %d' % (len(gen['modules']), n_uncompilable, tier, floor))
 
         # ---- WIT
         t3 = time.time()
@@ -316,11 +318,11 @@ class Orchestrator:
             wit = witness.run(self, fdir, tier, seed, nonce)
             res['findings'] += wit['findings']
             res['engines']['WIT'] = wit['evidence']
-            res['errors'] += wit.get('errors', [])
+            res['errors'] += ['[WIT] ' + e for e in wit.get('errors', [])]
         except ImportError:
             pass
         except Exception as e:
-            res['errors'].append('WIT engine failed: %s\n%s' % (e, traceback.format_exc()[-2000:]))
+            res['errors'].append('[WIT] WIT engine failed: %s\n%s' % (e, traceback.format_exc()[-2000:]))
         t_wit = time.time() - t3
         res['wall_s'] = time.time() - t0
         res['summary'] = {'tree': th, 'tier': tier, 'wall_s': round(res['wall_s'], 1), 'facts_s': round(t_facts, 1), 'src_s': round(t_src, 1),
@@ -354,7 +356,12 @@ class Orchestrator:
                 viol.append(f)
         for key, (k, f) in sorted(kf.items()):
             print('KNOWN-FINDING: property=%s %s' % (prop, k['what']))
-        errors = list(res['errors'])
+        engines = set(spec['engines']) | ({'SRC'} if 'CONV' in spec['engines'] else set())
+        errors = []
+        for e in res['errors']:
+            m = re.match(r'^\[(\w+)\] ', e)
+            if m is None or m.group(1) == 'ALL' or m.group(1) in engines:
+                errors.append(e)
         vdir = os.path.join(self.here, 'evidence', 'violations')
         code = 0
         # dedupe violations by key
